@@ -893,3 +893,27 @@ def undo_wide_quick():
 _c06q = PLAN['C06']['stages']
 PLAN['C06']['stages'] = lambda tier, seed: _c06q(tier, seed) + ([undo_wide_quick()] if tier == 'quick' else [])
 PLAN['C06']['bounds']['quick'] += '; wide: every state with 11 leaves of which at most 2 live, one block (adds 0..5) and its undo'
+
+
+# --------------------------------------------------------------------------- lifted replay: the same behaviours at 2^31 .. 2^62 leaves
+def lift(tier):
+    q = tier == 'quick'
+    st = core('lift_bfs', ['mod'], 8 if q else 10, 3 if q else 4, invariants=False, timeout=900 if q else 7200)
+    st['fam'] = 'lift'
+    return st
+
+
+def liftlemma(tier):
+    return {'kind': 'spec_check', 'name': 'lift_lemma', 'module': 'Lift', 'spec': 'Spec',
+            'constants': {'S': 3, 'MaxM': 5 if tier == 'quick' else 9}, 'invariants': ['LiftOK'], 'timeout': 900}
+
+
+LIFT_RULE = (' Lifted replay (stages lift_lemma, lift_bfs): the reference semantics is invariant under putting a forest on top of full high '
+             'trees - a forest of M*2^s + n leaves (n < 2^s) has below the trees of M exactly the forest of n leaves, every node at '
+             '(row, idx + M*2^(s-row)), roots = high roots followed by the small roots (geometry checked by TLC on spec/Lift.tla for small M). '
+             'Every block history TLC generates for small forests is replayed on a roots-only verifier and a partial map forest created from '
+             'the bare (opaque) roots of high trees holding 2^31, 2^32, 2^40 and 2^62 leaves, with shifted targets; roots, update data, '
+             'positions and single-leaf proofs must be the shifted expectations.')
+for _p in ('C01', 'C11', 'C10', 'C02'):
+    PLAN[_p]['stages'] = (lambda f: (lambda tier, seed: f(tier, seed) + [liftlemma(tier), lift(tier)]))(PLAN[_p]['stages'])
+    PLAN[_p]['rule'] += LIFT_RULE
